@@ -222,6 +222,18 @@ def block_env(stmts, target, env=None, unpack=False):
     return None
 
 
+def inline(e, env):
+    """copy of expression `e` with the names bound in env (name -> expression) replaced, transitively"""
+    import copy
+
+    class T(ast.NodeTransformer):
+        def visit_Name(self, n):
+            if isinstance(n.ctx, ast.Load) and n.id in env and env[n.id] is not None:
+                return T().visit(copy.deepcopy(env[n.id]))
+            return n
+    return ast.fix_missing_locations(T().visit(copy.deepcopy(e)))
+
+
 def spec_expr(text):
     return ast.parse(text, mode="eval").body
 
@@ -407,3 +419,36 @@ def regex_patterns(prog):
                         ordinals[owner] = ordinals.get(owner, 0) + 1
                         out.append((f"{owner}/pattern#{ordinals[owner]}", f"{m.rel}:{node.lineno}", v))
     return out
+
+
+def anchor_modules(prog, pid):
+    import json
+    from pathlib import Path
+    files = set()
+    for line in (Path(__file__).resolve().parents[2] / "properties.jsonl").read_text().splitlines():
+        if line.strip():
+            d = json.loads(line)
+            if d["id"] == pid:
+                files = set(d["anchors"]["files"])
+    return [m for m in prog.modules.values() if m.rel in files]
+
+
+def no_unsafe_cuts(run, pid, rule, floor=1):
+    """no pattern of the property's anchor files uses a possessive / atomic construct where it can change what is matched"""
+    from .. import rx
+    prog = run.prog
+    rels = {m.rel for m in anchor_modules(prog, pid)}
+    n = 0
+    for key, where, pat in regex_patterns(prog):
+        if where.rsplit(":", 1)[0] not in rels:
+            continue
+        try:
+            cs = rx.cuts(pat)
+        except rx.RxError:
+            continue
+        n += 1
+        run.ob(rule, f"{key}/no-backtracking-cut", not cs, where, "the pattern has no possessive / atomic construct that can make the search miss or shorten a text its language contains",
+               f"uses {cs}", mech="regex parse tree: cut constructs x first bytes of the continuation")
+    from ..model import need
+    need(n >= floor, f"anchor: {n} patterns found in the anchor files of {pid}, fewer than {floor}")
+    return n
